@@ -11,11 +11,12 @@ Open Scope list_scope.
 Section G.
 Variable ftext : bool -> N -> str.
 Variable b : backend.
-Notation tok_text := (tok_text ftext b).
-Notation tok_lexes := (tok_lexes ftext b).
-Notation tok_follow_ok := (tok_follow_ok ftext b).
-Notation tok_empty := (tok_empty ftext b).
-Notation first_char := (first_char ftext b).
+Variable inl : bool.
+Notation tok_text := (tok_text ftext b inl).
+Notation tok_lexes := (tok_lexes ftext b inl).
+Notation tok_follow_ok := (tok_follow_ok ftext b inl).
+Notation tok_empty := (tok_empty ftext b inl).
+Notation first_char := (first_char ftext b inl).
 
 (* sc_ok with the first character of what follows the script *)
 Definition or_next (o nxt : option N) : option N := match o with Some f => Some f | None => nxt end.
@@ -28,7 +29,7 @@ Fixpoint sc_okn (sc : script) (nxt : option N) : bool :=
       sc_okn rest nxt
   end.
 
-Lemma sc_okn_none sc : sc_okn sc None = sc_ok ftext b sc.
+Lemma sc_okn_none sc : sc_okn sc None = sc_ok ftext b inl sc.
 Proof.
   induction sc as [|t r IH]; [reflexivity|]. cbn [sc_okn ScriptSafe.sc_ok]. rewrite IH.
   destruct (first_char r); reflexivity.
@@ -67,13 +68,17 @@ Proof.
       apply N.eqb_eq in H; subst f; reflexivity.
 Qed.
 
+Lemma text_follow_usafe s f : text_lexes b s = true -> usafe f = true -> text_follow_ok b s f = true.
+Proof.
+  unfold text_lexes, text_follow_ok. intros Hl Hf.
+  destruct (text_toks b s) as [[|t0 ts]|]; [now rewrite orb_true_r| |discriminate Hl].
+  rewrite (usafe_follow f _ Hf). now rewrite orb_true_r.
+Qed.
 Lemma tok_follow_usafe t f : tok_lexes t = true -> usafe f = true -> tok_follow_ok t f = true.
 Proof.
   intros Hl Hf. destruct t; cbn [ScriptSafe.tok_follow_ok ScriptSafe.tok_lexes] in *;
-    try (destruct (text_toks b _) as [[|t0 ts]|]; [now rewrite orb_true_r| |discriminate Hl];
-         rewrite (usafe_follow f _ Hf); now rewrite orb_true_r).
-  - now rewrite (usafe_not_word f Hf).
-  - now rewrite orb_true_r.
+    try (now apply text_follow_usafe).
+  destruct inl; [now apply text_follow_usafe|now rewrite (usafe_not_word f Hf)].
 Qed.
 
 (* a good script may be followed by a universally safe character *)
@@ -100,7 +105,7 @@ Definition starts_usafe (s : str) : bool := match s with f :: _ => usafe f | [] 
 
 Lemma open_follow s f : openb s = true -> tok_follow_ok (WS s) f = true.
 Proof.
-  unfold openb. cbn [ScriptSafe.tok_follow_ok ScriptSafe.tok_text]. intros H.
+  unfold openb. cbn [ScriptSafe.tok_follow_ok ScriptSafe.tok_text]. unfold text_follow_ok. intros H.
   apply orb_prop in H as [->|H]; [reflexivity|]. rewrite orb_comm.
   destruct (text_toks b s) as [[|t0 ts]|]; [reflexivity| |discriminate H].
   destruct (last (t0 :: ts) (TkPunct 0)) as [| | | | | | |p]; try discriminate H. cbn [follow_char_ok].
@@ -150,10 +155,11 @@ Variable Q : Type.
 Variable rq : Q -> script.
 Variable is_alpha : N -> bool.
 Variable b : backend.
+Variable inl : bool.
 Variable T : etables.
 
-Notation G := (G ftext b).
-Notation lexes := (lexes ftext b).
+Notation G := (G ftext b inl).
+Notation lexes := (lexes ftext b inl).
 Notation openb := (openb b).
 Notation rexpr := (rexpr Q rq is_alpha b T).
 
@@ -162,7 +168,9 @@ Fixpoint expr_plain (e : expr Q) : bool :=
   match e with
   | ECustom _ | ECustomWith _ _ => false
   | EKeyword (KwCustom _) => false
-  | EConstant v => tok_lexes ftext b (WConst v)
+  | EConstant v => tok_lexes ftext b inl (WConst v)
+  | EValue v => tok_lexes ftext b inl (WVal v)          (* trivially true for the parameterised SQL *)
+  | EValues vs => forallb (fun v => tok_lexes ftext b inl (WVal v)) vs
   | ETuple es => forallb expr_plain es
   | ENot x => expr_plain x
   | EFunc f args =>
@@ -206,22 +214,25 @@ Proof.
   now rewrite rev_involutive.
 Qed.
 
-Lemma wid_lexes s : tok_lexes ftext b (WId s) = true.
+Lemma wid_lexes s : tok_lexes ftext b inl (WId s) = true.
 Proof.
-  cbn [ScriptSafe.tok_lexes ScriptSafe.tok_text]. unfold text_toks.
+  cbn [ScriptSafe.tok_lexes ScriptSafe.tok_text]. unfold text_lexes, text_toks.
   pose proof (identifier_is_one_token b s) as H. unfold iden_prepare in *.
   rewrite app_comm_cons, rstrip_last by (destruct b; reflexivity). cbn [fst].
   rewrite <- app_comm_cons, H. reflexivity.
 Qed.
+
+Lemma c_int : tok_lexes ftext b inl (WVal (int_value 1)) = true /\ tok_lexes ftext b inl (WVal (int_value 2)) = true.
+Proof. split; destruct b, inl; vm_compute; reflexivity. Qed.
 
 Lemma c_kw : lexes (K "NULL") = true /\ lexes (K "CURRENT_DATE") = true /\ lexes (K "CURRENT_TIME") = true /\
   lexes (K "CURRENT_TIMESTAMP") = true /\ lexes (K "*") = true /\ lexes (K ".") = true /\ lexes (K ".*") = true /\
   lexes [] = true.
 Proof. repeat split; const. Qed.
 
-Notation first_char := (ScriptSafe.first_char ftext b).
+Notation first_char := (ScriptSafe.first_char ftext b inl).
 
-Lemma G_cons_safe t Y f : tok_lexes ftext b t = true -> G Y -> first_char Y = Some f -> usafe f = true -> G (t :: Y).
+Lemma G_cons_safe t Y f : tok_lexes ftext b inl t = true -> G Y -> first_char Y = Some f -> usafe f = true -> G (t :: Y).
 Proof. intros Ht HY Hf Hs. change (t :: Y) with ([t] ++ Y). eapply G_app_safe; eauto. now apply G_one. Qed.
 
 Lemma G_wrap p s : G s -> G (wrap p s).
@@ -251,8 +262,8 @@ Proof.
   unfold rbinop. destruct op; try contradiction; apply G_opt_text; intros s Hs; eapply HT_bin; exact Hs.
 Qed.
 
-Lemma wid_toks s : text_toks b (ScriptSafe.tok_text ftext b (WId s)) = Some [TkId s] /\
-  text_trailing_blank (ScriptSafe.tok_text ftext b (WId s)) = false.
+Lemma wid_toks s : text_toks b (ScriptSafe.tok_text ftext b inl (WId s)) = Some [TkId s] /\
+  text_trailing_blank (ScriptSafe.tok_text ftext b inl (WId s)) = false.
 Proof.
   cbn [ScriptSafe.tok_text]. unfold text_toks, text_trailing_blank.
   pose proof (identifier_is_one_token b s) as H. unfold iden_prepare in *.
@@ -262,8 +273,8 @@ Qed.
 Lemma wid_first s r : first_char (WId s :: r) = Some (quote_char b).
 Proof. reflexivity. Qed.
 
-Lemma G_cons_follow t Y f : tok_lexes ftext b t = true -> G Y -> first_char Y = Some f ->
-  tok_follow_ok ftext b t f = true -> G (t :: Y).
+Lemma G_cons_follow t Y f : tok_lexes ftext b inl t = true -> G Y -> first_char Y = Some f ->
+  tok_follow_ok ftext b inl t f = true -> G (t :: Y).
 Proof.
   unfold G. intros Ht HY Hf Hfo. cbn [sc_okn]. rewrite Ht, HY, Hf. cbn [or_next]. rewrite Hfo.
   now rewrite orb_true_r.
@@ -272,9 +283,9 @@ Qed.
 Lemma G_colref c : G (rcolref c).
 Proof.
   destruct c_kw as (_ & _ & _ & _ & Kstar & Kdot & Kdotstar & _).
-  assert (Hdot : forall s, tok_follow_ok ftext b (WId s) 46 = true).
-  { intros s. cbn [ScriptSafe.tok_follow_ok]. destruct (wid_toks s) as [-> ->]. reflexivity. }
-  assert (Hq : tok_follow_ok ftext b (ws ".") (quote_char b) = true) by (destruct b; vm_compute; reflexivity).
+  assert (Hdot : forall s, tok_follow_ok ftext b inl (WId s) 46 = true).
+  { intros s. cbn [ScriptSafe.tok_follow_ok]. unfold text_follow_ok. destruct (wid_toks s) as [-> ->]. reflexivity. }
+  assert (Hq : tok_follow_ok ftext b inl (ws ".") (quote_char b) = true) by (destruct b; vm_compute; reflexivity).
   assert (Gid : forall s, G [WId s]) by (intros s; apply G_one, wid_lexes).
   assert (Gdot : forall s, G (ws "." :: [WId s])).
   { intros s. eapply G_cons_follow; [exact Kdot|apply Gid|reflexivity|exact Hq]. }
@@ -343,8 +354,7 @@ Proof.
     destruct (IHl Hl) as [Gl _]. destruct (IHr Hr) as [Gr Gr2].
     intros common. cbn [RenderExpr.rexpr].
     destruct (is_empty_in Q op r).
-    + destruct op; apply G_binary_expr; [exact I|apply G_one; reflexivity|apply G_one; reflexivity|..];
-        try exact I; try (apply G_one; reflexivity).
+    + destruct c_int as [I1 I2]. destruct op; apply G_binary_expr; try exact I; apply G_one; assumption.
     + apply G_binary_expr; [exact Hop'|apply Gl|].
       destruct r as [| | | |lo o hi| | | | | | | | |]; try apply Gr.
       destruct o; try apply Gr. destruct (is_between op); [|apply Gr].
@@ -355,10 +365,10 @@ Proof.
   - (* sub-query *) intros common. cbn [RenderExpr.rexpr]. unfold ws. cbn [app].
     apply G_sandwich; [|apply G_post; [apply Hrq|exact R1|exact R3]|exact L1|exact L2|exact L3].
     destruct op as [o|]; [|apply G_nil]. apply G_opt_text. intros s0 Hs0. eapply HT_sq; exact Hs0.
-  - (* value *) intros common. cbn [RenderExpr.rexpr]. apply G_one. reflexivity.
+  - (* value *) intros common. cbn [RenderExpr.rexpr]. apply G_one. exact Hp.
   - (* values *) intros common. cbn [RenderExpr.rexpr]. unfold ws. apply G_pre; [|exact L1|exact L2].
     apply G_post; [|exact R1|exact R3]. apply G_sepby. apply Forall_forall. intros sc Hin.
-    apply in_map_iff in Hin as [v0 [<- _]]. apply G_one. reflexivity.
+    apply in_map_iff in Hin as [v0 [<- Hv0]]. apply G_one. rewrite forallb_forall in Hp. now apply Hp.
   - (* custom *) discriminate Hp.
   - discriminate Hp.
   - (* keyword *) intros common. cbn [RenderExpr.rexpr].
@@ -412,20 +422,34 @@ Variable b : backend.
 Variable T : etables.
 
 Definition spellings_lex : Prop :=
-  (forall k s, t_binop T k = Some s -> tok_lexes ftext b (WS s) = true) /\
-  (forall k s, t_func T k = Some s -> tok_lexes ftext b (WS s) = true) /\
-  (forall k s, t_sqop T k = Some s -> tok_lexes ftext b (WS s) = true).
+  (forall k s, t_binop T k = Some s -> text_lexes b s = true) /\
+  (forall k s, t_func T k = Some s -> text_lexes b s = true) /\
+  (forall k s, t_sqop T k = Some s -> text_lexes b s = true).
 
-Theorem rendered_expression_is_separable e common :
-  spellings_lex -> (forall q, sc_ok ftext b (rq q) = true) -> expr_plain ftext Q b e = true ->
-  sc_ok ftext b (rexpr Q rq is_alpha b T common e) = true /\
-  params_sep ftext b (rexpr Q rq is_alpha b T common e) = true.
+Theorem rendered_expression_is_locally_safe inl e common :
+  spellings_lex -> (forall q, sc_ok ftext b inl (rq q) = true) -> expr_plain ftext Q b inl e = true ->
+  sc_ok ftext b inl (rexpr Q rq is_alpha b T common e) = true.
 Proof.
   intros (H1 & H2 & H3) Hq Hp.
-  assert (Hg : sc_ok ftext b (rexpr Q rq is_alpha b T common e) = true).
-  { rewrite <- sc_okn_none. apply (rexpr_good ftext Q rq is_alpha b T H1 H2 H3); [|exact Hp].
-    intros q. unfold G. rewrite sc_okn_none. apply Hq. }
+  rewrite <- sc_okn_none. apply (rexpr_good ftext Q rq is_alpha b inl T H1 H2 H3); [|exact Hp].
+  intros q. unfold G. rewrite sc_okn_none. apply Hq.
+Qed.
+
+Theorem rendered_expression_is_separable e common :
+  spellings_lex -> (forall q, sc_ok ftext b false (rq q) = true) -> expr_plain ftext Q b false e = true ->
+  sc_ok ftext b false (rexpr Q rq is_alpha b T common e) = true /\
+  params_sep ftext b (rexpr Q rq is_alpha b T common e) = true.
+Proof.
+  intros HT Hq Hp. pose proof (rendered_expression_is_locally_safe false e common HT Hq Hp) as Hg.
   split; [exact Hg|now apply sc_ok_params_sep].
+Qed.
+
+(* the inline SQL of to_string(): the literal of every value and constant of the tree must lex (expr_plain .. true) *)
+Theorem rendered_expression_is_separable_inline e common :
+  spellings_lex -> (forall q, sc_ok ftext b true (rq q) = true) -> expr_plain ftext Q b true e = true ->
+  inline_sep ftext b (rexpr Q rq is_alpha b T common e) = true.
+Proof.
+  intros HT Hq Hp. apply sc_ok_inline_sep. now apply rendered_expression_is_locally_safe.
 Qed.
 End Top.
 
@@ -433,26 +457,23 @@ End Top.
 Require Import SQV.Model.ExprTablesInst.
 Definition rows_lex (b : backend) (rows : list (N * option str)) : bool :=
   forallb (fun r => match snd r with
-                    | Some s => tok_lexes (fun _ _ => []) b (WS s)
+                    | Some s => text_lexes b s
                     | None => true
                     end) rows.
-Lemma tok_lexes_ws_ftext f1 f2 b s : tok_lexes f1 b (WS s) = tok_lexes f2 b (WS s).
-Proof. reflexivity. Qed.
-Lemma lookup_opt_lex ftext b rows k s : rows_lex b rows = true -> lookup_opt rows k = Some s ->
-  tok_lexes ftext b (WS s) = true.
+Lemma lookup_opt_lex b rows k s : rows_lex b rows = true -> lookup_opt rows k = Some s ->
+  text_lexes b s = true.
 Proof.
   unfold rows_lex, lookup_opt. intros H Hl. rewrite forallb_forall in H.
   destruct (find (fun r => fst r =? k) rows) as [r|] eqn:E; [|discriminate Hl].
-  apply find_some in E as [Hin _]. specialize (H r Hin). rewrite Hl in H.
-  rewrite (tok_lexes_ws_ftext ftext (fun _ _ => []) b s). exact H.
+  apply find_some in E as [Hin _]. specialize (H r Hin). now rewrite Hl in H.
 Qed.
-Lemma mk_tables_spellings_lex ftext b paren lassoc binops funcs sqops :
+Lemma mk_tables_spellings_lex b paren lassoc binops funcs sqops :
   rows_lex b binops = true -> rows_lex b funcs = true -> rows_lex b sqops = true ->
-  spellings_lex ftext b (mk_tables paren lassoc binops funcs sqops).
+  spellings_lex b (mk_tables paren lassoc binops funcs sqops).
 Proof.
   intros H1 H2 H3. unfold spellings_lex. cbn [mk_tables t_binop t_func t_sqop].
   split; [|split]; intros k s Hs.
-  - exact (lookup_opt_lex ftext b binops k s H1 Hs).
-  - exact (lookup_opt_lex ftext b funcs k s H2 Hs).
-  - exact (lookup_opt_lex ftext b sqops k s H3 Hs).
+  - exact (lookup_opt_lex b binops k s H1 Hs).
+  - exact (lookup_opt_lex b funcs k s H2 Hs).
+  - exact (lookup_opt_lex b sqops k s H3 Hs).
 Qed.
